@@ -60,7 +60,7 @@ def kernel_values(kshape, kind, seed):
 
 
 def make_dataset(frame, kshape, bits, psf_kind="nonneg", seed=0, sub=1, data_kind="mixed", scales=(1.0, 1.0),
-                 origin=(0.0, 0.0), normalize=True, units=1.0):
+                 origin=(0.0, 0.0), normalize=True, units=1.0, noise_factor=1.0):
     import autoarray as aa
 
     m = dom.interior_mask(tuple(frame), tuple(kshape), bits)
@@ -77,6 +77,8 @@ def make_dataset(frame, kshape, bits, psf_kind="nonneg", seed=0, sub=1, data_kin
     else:
         raise ValueError(data_kind)
     nn = 0.5 + (lab * 3 % 7) / 4.0 + 0.1 * r.uniform(size=(H, W))
+    if noise_factor != 1.0:  # a dataset that differs from the standard one in its noise-map only
+        nn = nn * noise_factor
     if units != 1.0:  # the same dataset expressed in other units (counts vs electrons per second ...): data and noise scale together
         dn = dn * units
         nn = nn * units
